@@ -613,8 +613,12 @@ fn add_path_data<W: Write>(
         let point = control_points[i];
 
         if let Some(path_type) = point.path_type {
-            let mut needs_explicit_segment =
-                point.path_type != last_type || point.path_type == Some(PathType::PERFECT_CURVE);
+            // The decoder never splits a segment at a repeated point at the
+            // segment's end, so the type of the last control point cannot be
+            // expressed implicitly.
+            let mut needs_explicit_segment = point.path_type != last_type
+                || point.path_type == Some(PathType::PERFECT_CURVE)
+                || i == control_points.len() - 1;
 
             if i > 1 {
                 let p1 = pos + control_points[i - 1].pos;
@@ -640,8 +644,15 @@ fn add_path_data<W: Write>(
                 }
 
                 // Beatmaps such as /b/1027526 have no control points so the
-                // path type needs to be followed by `,` instead of `|`.
-                writer.write_all(slice::from_ref(&separator(i)))?;
+                // path type needs to be followed by `,` instead of `|`. In
+                // every other case the position of this control point follows.
+                let type_separator = if control_points.len() == 1 {
+                    b','
+                } else {
+                    b'|'
+                };
+
+                writer.write_all(slice::from_ref(&type_separator))?;
 
                 last_type = Some(path_type);
             } else {
